@@ -283,6 +283,15 @@ func firstDiff(a, b []byte) string {
 }
 
 // reserialiseCheck: decoded tx re-serialises to the canonical bytes in both formats.
+// scribbleReturned: a caller may do what it likes with a returned buffer (overwrite it, append to it);
+// the library's later answers must not depend on that.
+func scribbleReturned(b []byte) {
+	for i := range b {
+		b[i] ^= 0x5a
+	}
+	_ = append(b, 0xEE, 0xEE, 0xEE, 0xEE, 0xEE, 0xEE, 0xEE, 0xEE, 0xEE, 0xEE, 0xEE, 0xEE, 0xEE, 0xEE, 0xEE, 0xEE)
+}
+
 func reserialiseCheck(c *kernel.RunCtx, tx *bt.Tx, m *models.RTx, extended bool, where string) bool {
 	std, _ := m.Encode(false, nil)
 	var got []byte
@@ -293,6 +302,17 @@ func reserialiseCheck(c *kernel.RunCtx, tx *bt.Tx, m *models.RTx, extended bool,
 	if !sameBytes(got, std) {
 		c.Fail("reserialise", "Tx.Bytes", "%s: standard re-serialisation differs: %s", where, firstDiff(got, std))
 		return false
+	}
+	if len(std) < 2000 {
+		// the second answer must not depend on what the caller did with the first
+		scribbleReturned(got)
+		for _, n := range []int{len(m.Ins), len(m.Outs)} {
+			scribbleReturned(bt.VarInt(uint64(n)).Bytes())
+		}
+		if again := tx.Bytes(); !sameBytes(again, std) {
+			c.Fail("aliasing", "Tx.Bytes", "%s: after the caller overwrote / appended to returned buffers, Bytes() answers differently: %s", where, firstDiff(again, std))
+			return false
+		}
 	}
 	mm := m
 	if !extended {
@@ -988,6 +1008,15 @@ func (w *c01World) fieldDecoders(c *kernel.RunCtx, m *models.RTx, extended bool)
 	if !sameBytes(vb, ref) || bt.VarInt(v).Length() != len(ref) {
 		c.Fail("varint", "VarInt.Bytes", "VarInt(%d): Bytes=%x Length=%d, reference %x", v, vb, bt.VarInt(v).Length(), ref)
 		return
+	}
+	scribbleReturned(vb)
+	for _, d := range []uint64{0, 1, 2, 5} {
+		if w := v + d; w >= v {
+			if again := bt.VarInt(w).Bytes(); !sameBytes(again, models.VarInt(w)) {
+				c.Fail("aliasing", "VarInt.Bytes", "after the caller overwrote / appended to the slice returned by VarInt(%d).Bytes(), VarInt(%d).Bytes() = %x, reference %x", v, w, again, models.VarInt(w))
+				return
+			}
+		}
 	}
 	st := kernel.NewStream(append(append([]byte(nil), ref...), 0x77), plan)
 	var got bt.VarInt
